@@ -177,6 +177,37 @@ def default_rules(ctx, prog):
                "stores in the handle) is: wait(until deadline), terminate, wait(forever) for an all-noop policy; any other policy unchanged",
                outs == want, {"result": sorted(outs)[:2]}, nontrivial=True)
     ctx.floor("C15.D3", 64)
+    # D4: the deadline the validator leaves is the one given: 0 means none, every other value - 1 ms, 7 ms, the largest int, the
+    # "none" marker itself - is handed on as it is (evaluated exactly; an adjustment that wraps at INT_MAX turns "practically never"
+    # into "already over", and destroy would signal at once)
+    INT_MAX = 2147483647
+    I2 = new_interp(prog, overrides={"parse_redirect": o_pr})
+    I2.widen = False
+    I2.K = sorted(set(I2.K) | {INT_MAX, 7, 1})
+    I2.Kset = set(I2.K)
+    I2.TOP_INT = frozenset(I2.K) | {"NEG", "POS"}
+    states2 = []
+    for d in (0, 1, 7, INT_MAX, INF):
+        st = states[0].copy()
+        st.mem[("f", O, "deadline")] = fs(d)
+        st.mon["case"] = d
+        states2.append(st)
+    res2 = I2.run(F, states2)
+    ctx.stats("E-ABS", I2.stats)
+    got = {}
+    for s, rv in res2.exits:
+        got.setdefault(s.mon["case"], set()).add((show(rv)[:30], s.mem.get(("f", O, "deadline"))))
+    for d in (0, 1, 7, INT_MAX, INF):
+        outs = got.get(d, set())
+        if d in (0, INF):
+            ok = bool(outs) and all(r == show(fs(0)) and v == fs(INF) for r, v in outs)
+        else:
+            # never earlier than asked for, and still a representable int (nothing above INT_MAX exists: the value must be itself)
+            ok = bool(outs) and all(r == show(fs(0)) and v is not None and len(v) == 1 and all(isinstance(a, int) and d <= a <= INT_MAX for a in v)
+                                    for r, v in outs)
+        ctx.ob("C15.D4", "parse_options: deadline = %d" % d, "the validator accepts this deadline and leaves %s in the options"
+               % ("'none'" if d in (0, INF) else "a definite number of milliseconds that is not smaller and still an int"), ok,
+               {"result": sorted((r, show(v)) for r, v in outs)[:3]}, nontrivial=True)
 
 
 def check(ctx):
